@@ -29,9 +29,13 @@ class SocketIO:
         "Read exactly 'bytes' bytes from the socket."
         buf = b""
         while len(buf) < numbytes:
-            t = self.sock.recv(numbytes - len(buf))
+            try:
+                t = self.sock.recv(numbytes - len(buf))
+            except OSError as e:
+                # e.g. connection reset: the peer is gone, same as EOF
+                raise EOFError(f"connection lost: {e}") from e
             if not t:
-                raise EOFError
+                raise EOFError("expected %d bytes, got %d" % (numbytes, len(buf)))
             buf += t
         return buf
 
